@@ -153,12 +153,50 @@ def documented_step(b):
         z1 = s.g.conj_prox(s.z + s.sigma * s.C((1.0 + s.alpha) * x1 - s.alpha * s.x), s.sigma)
         return {"x": F(x1), "xold": F(s.x), "z": F(z1), "zold": F(s.z)}
     kind = b.recipe["pol"]["kind"]
+    if G.real_bb(b.recipe):
+        # documented Barzilai-Borwein rule evaluated independently of the policy object (which is under test and whose
+        # update() has side effects): differences to the remembered point, quotient, finiteness / positivity test, and
+        # the memory refreshed with the point the hook is consulted at (x for both classes) in every call
+        pl = s.step_size
+        x = s.x
+        gx = s.f.grad(x)
+        mem = {"xp": F(x), "gp": F(gx), "l1": None, "l2": None}
+        L = float(s.L)
+        okv = lambda q: bool(np.isfinite(q)) and q > 0  # noqa: E731
+        if pl.xprev is not None:
+            dx = np.asarray(G.np_flat(x)) - np.asarray(G.np_flat(pl.xprev))
+            dg = np.asarray(G.np_flat(gx)) - np.asarray(G.np_flat(pl.gradprev))
+            xx, xg, gg = (float(np.real(np.sum(np.conj(p_) * q_))) for p_, q_ in ((dx, dx), (dx, dg), (dg, dg)))
+            with np.errstate(all="ignore"):
+                if kind == "bb":
+                    q = np.float64(gg) / np.float64(xg)
+                    L = float(q) if okv(q) else L
+                else:
+                    q1, q2 = np.float64(xg) / np.float64(xx), np.float64(gg) / np.float64(xg)
+                    l1 = float(q1) if okv(q1) else pl.Lbb1prev
+                    l2 = float(q2) if okv(q2) else pl.Lbb2prev
+                    if l1 is not None and l2 is not None:
+                        L = float(l2) if (l1 / l2) < pl.kappa else float(l1)
+                    mem["l1"] = None if l1 is None else float(l1)
+                    mem["l2"] = None if l2 is None else float(l2)
+        elif kind == "adaptiveBB":
+            mem["l1"] = None if pl.Lbb1prev is None else float(pl.Lbb1prev)
+            mem["l2"] = None if pl.Lbb2prev is None else float(pl.Lbb2prev)
+        if a == "pgm":
+            x1 = s.g.prox(s.x - (1.0 / L) * s.f.grad(s.x), 1.0 / L)
+            return {"x": F(x1), "L": L, "fpr": _norm(s.x - x1), "mem": mem}
+        x1 = s.g.prox(s.v - (1.0 / L) * s.f.grad(s.v), 1.0 / L)
+        t1 = 0.5 * (1.0 + np.sqrt(1.0 + 4.0 * float(s.t) ** 2))
+        v1 = x1 + ((float(s.t) - 1.0) / t1) * (x1 - s.x)
+        return {"x": F(x1), "v": F(v1), "t": float(t1), "L": L, "fpr": _norm(x1 - s.v), "mem": mem}
+    base_real = kind == "base" and b.recipe["pol"].get("real", True)
     if a == "pgm":
-        L = s.step_size.update(s.x)
+        # documented: "the default PGMStepSize simply sets L = L0" - not whatever the (possibly shared) object returns
+        L = float(s.L) if base_real else s.step_size.update(s.x)
         x1 = s.g.prox(s.x - (1.0 / L) * s.f.grad(s.x), 1.0 / L)
         return {"x": F(x1), "L": float(L), "fpr": _norm(s.x - x1)}
     if a == "apgm":
-        L = s.step_size.update(s.x if kind in ("bb", "adaptiveBB") else s.v)
+        L = float(s.L) if base_real else s.step_size.update(s.x if kind in ("bb", "adaptiveBB") else s.v)
         if kind == "robust":
             x1 = s.step_size.Z
             return {"x": F(x1), "v": F(s.v), "t": float(s.t), "L": float(L), "fpr": _norm(x1 - s.x)}
@@ -167,6 +205,14 @@ def documented_step(b):
         v1 = x1 + ((float(s.t) - 1.0) / t1) * (x1 - s.x)
         return {"x": F(x1), "v": F(v1), "t": float(t1), "L": float(L), "fpr": _norm(x1 - s.v)}
     raise Infra("alg")
+
+
+def _fld(st, fld):
+    """value of a (possibly dotted: 'mem.xp') field of a state"""
+    v = st
+    for part in fld.split("."):
+        v = None if v is None else v.get(part)
+    return v
 
 
 def oracle_step(case):
@@ -185,7 +231,7 @@ def oracle_step(case):
     if fld is None:
         return None
     return {"class": type(b.solver).__name__, "recipe": case["recipe"], "pre_state": pre_now, "field": fld,
-            "documented": doc[fld], "step_returned": post[fld]}
+            "documented": _fld(doc, fld), "step_returned": _fld(post, fld)}
 
 
 # --------------------------------------------------------------------------------------------
@@ -289,7 +335,7 @@ def check_accessors(ctx, model, b, rng, recipe, stepno):
     """all accessors of b.solver at its current state, with and without supplied points"""
     s, a, cx = b.solver, b.alg, b.cplx
     st_f = b.read()
-    st = G.state_json(st_f)
+    st = G.state_json(st_f if not isinstance(st_f.get("mem"), dict) else dict(st_f, mem=[0.0]))
     xs = b.xshape
     xv = G.rand_value(rng, xs, cx)
     xa = G.unflat(xv, xs, cx)
@@ -347,7 +393,8 @@ def check_accessors(ctx, model, b, rng, recipe, stepno):
                           {"xq": common.fs2b(xv), "yq": common.fs2b(yv), "Lq": common.f2b(Lq)}, "fquad", (xa, ya, Lq)))
     for label, fn, args, mname, mkw, dname, dargs in calls:
         impl = _impl_acc(fn, *args)
-        mod = _model_acc(model, a, b.p, st, mname, **mkw)
+        pacc = b.p if not G.real_bb(recipe) else dict(b.p, pol=G.policy_model({"kind": "base", "real": True}))
+        mod = _model_acc(model, a, pacc, st, mname, **mkw)
         ctx.count(f"accessor:{a}.{label}")
         if impl[0] == "err":
             ctx.count(f"accessor-error:{impl[1]}")
@@ -386,7 +433,7 @@ def check_accessors(ctx, model, b, rng, recipe, stepno):
 
 
 def _skip_fields(recipe):
-    if recipe["alg"] in ("pgm", "apgm") and recipe["pol"].get("real", True):
+    if recipe["alg"] in ("pgm", "apgm") and recipe["pol"].get("real", True) and not G.real_bb(recipe):
         return ("mem",)
     return ()
 
@@ -418,7 +465,9 @@ def run_case(ctx, model, recipe, k, rng, accessors=True, tag="gen"):
         check_accessors(ctx, model, b, rng, recipe, 0)
     # k steps: state after each step
     pre = init
-    trace = model.call("step", alg=a, p=b.p, s=G.state_json(pre), k=k, mode="impl")
+    if G.real_bb(recipe):
+        k = max(k, 4)  # a rejected BB value shows in the memory one step later and in L two steps later
+    trace = model.call("step", alg=b.model_alg, p=b.p, s=G.state_json(pre), k=k, mode="impl")
     moved = False
     drifted = False
     for i in range(k):
@@ -439,7 +488,7 @@ def run_case(ctx, model, recipe, k, rng, accessors=True, tag="gen"):
             # (feedback step-size hooks, edge parameters) rounding differences are amplified step by step, so a
             # deviation of the iterated trace alone (seed 5 thorough: 1e-6 relative after 30 steps while every single
             # step agreed to 1e-15) is counted, not reported.
-            m_one = G.state_from_wire(model.call("step", alg=a, p=b.p, s=G.state_json(pre), k=1, mode="impl")[0])
+            m_one = G.state_from_wire(model.call("step", alg=b.model_alg, p=b.p, s=G.state_json(pre), k=1, mode="impl")[0])
             fld = G.states_close(post, m_one, rtol=RTOL, skip=skip)
             m_iter = m_one
             if fld is None and fld_iter is not None:
@@ -447,11 +496,13 @@ def run_case(ctx, model, recipe, k, rng, accessors=True, tag="gen"):
                 drifted = True  # from here on only the single-step comparison is meaningful
         if fld is not None:
             case = {"recipe": recipe, "pre": pre if i > 0 else None, "k": 1, "step": i}
-            ctx.disagree(f"steps.{a}.step", case, {fld: post[fld]}, {fld: m_iter.get(fld)}, oracle=oracle_step,
+            ctx.disagree(f"steps.{a}.step", case, {fld: _fld(post, fld)}, {fld: _fld(m_iter, fld)}, oracle=oracle_step,
                          note=f"field {fld} after step {i + 1}")
             break
         if accessors and (i == k - 1 or i == 0):
             check_accessors(ctx, model, b, rng, recipe, i + 1)
+        if G.real_bb(recipe) and isinstance(pre.get("mem"), dict) and pre["mem"]["xp"] is not None:
+            ctx.count("bb-real.step:" + ("value-rejected(L kept)" if post["L"] == pre["L"] else "value-accepted"))
         pre = post
     ctx.case({"config": key, "k": k, "stream": tag}, (key, k) if moved else None, sample_every=40)
     ctx.count(f"alg:{a}")
@@ -467,8 +518,12 @@ def run_case(ctx, model, recipe, k, rng, accessors=True, tag="gen"):
             ctx.count("admm.matrix-solver-C_list:" + ("mixed" if len(kinds) > 1 else kinds.pop()))
         ctx.count(f"admm.N:{len(recipe['C'])}")
         ctx.count("admm.f:" + ("none" if recipe["f"] is None else "loss"))
+    if a in ("pgm", "apgm") and recipe.get("decoy_L0") is not None:
+        ctx.count("history:second-solver-with-default-step-size-alive")
     if a in ("pgm", "apgm"):
-        ctx.count(f"{a}.policy:{recipe['pol']['kind']}" + ("" if recipe["pol"].get("real", True) else "-spy"))
+        ctx.count(f"{a}.policy:{recipe['pol']['kind']}" + ("-real" if G.real_bb(recipe) else ("" if recipe["pol"].get("real", True) else "-spy")))
+        if G.real_bb(recipe):
+            ctx.count("bb-real.f:" + ("double-well(non-convex)" if recipe["f"]["k"] == "dwell" else "convex-loss"))
     if a == "pdhg":
         ctx.count("pdhg.C:" + ("nonlinear" if recipe.get("nl") is not None else "linear"))
         ctx.count(f"pdhg.alpha:{recipe['alpha']:g}")
